@@ -441,6 +441,8 @@ def check_rk_call_unbounded(reg, src, prop, implicit, adaptive, keep=None, fault
     from pyvc.executor import Contract
     ex = Executor(src, reg, prop=prop)
     fi = src.func(FT, "RungeKuttaIntegrator.__call__")
+    label_ = "implicit" if implicit and not adaptive else ("implicit-adaptive" if implicit else ("adaptive" if adaptive else "explicit-fixed"))
+    tag_ = "RungeKuttaIntegrator.__call__[%s,any-number-of-retries%s]" % (label_, ",faults" if faulting else "")
 
     def step_stub(ex_, st_, ctx, args, kwargs):
         selfref, ts = args[0], args[5]
@@ -472,6 +474,17 @@ def check_rk_call_unbounded(reg, src, prop, implicit, adaptive, keep=None, fault
         redo = corr < z3.Q(81, 100)
         st_.ghost["last_redo"] = redo
         st_.env["g_rejected"] = redo
+        # every verdict -- of the first attempt and of each retry -- is formed from the attempt it judges: neither the error scale nor the
+        # controller memory of an earlier call or of a *rejected* attempt is present (update_timestep writes these keys, proved frame;
+        # defect F31: they used to be carried from a rejected attempt into the judgement of its retry)
+        items_ = st_.obj(st_.obj(selfref).fields["solver_dict"]).items
+        seen = tuple(k for k in STALE_MEMORY if k in items_)
+        n_upd = st_.ghost.get("n_updates", 0)
+        st_.ghost["n_updates"] = n_upd + 1
+        reg.ground("%s/%s/verdict-formed-without-memory-of-rejected-attempts[%s]" % (prop, tag_, "first-attempt" if n_upd == 0 else "retry"), "post", "__call__", seen == (),
+                   backend="symbolic-exec", detail="controller memory present when update_timestep is called: %r" % (seen,))
+        for k in STALE_MEMORY:
+            items_[k] = Opaque("memory_of_this_attempt_" + k)
         return (corr * tau * h, redo)
     ex.call_hooks["RungeKuttaIntegrator.step"] = step_stub
     ex.call_hooks["RungeKuttaIntegrator.update_timestep"] = upd_stub
